@@ -1027,6 +1027,72 @@ func (x *c12Ctx) collision() {
 	}
 }
 
+// framingPairs: pairs of DIFFERENT v2 transactions that move bytes across the boundary between two adjacent
+// variable-length parts of the semantic encoding (attestation key | value, last attestation value | arbitrary data,
+// arbitrary data | the optional Foundation address). If the id encoding did not frame each part (length prefix,
+// presence byte), the two transactions of a pair would get the same id and the same input sighash — a signature on
+// one would authorise the other. Single-field mutations cannot see this: the pair differs in two coordinated places.
+func (x *c12Ctx) framingPairs() {
+	res := x.c.Res
+	cs := consensus.State{}
+	var A types.Address
+	x.rng.Read(A[:])
+	A[31] = 0 // the collision under an unframed encoding needs the address to end in the "absent" flag byte
+	data := make([]byte, 5+x.rng.Intn(20))
+	x.rng.Read(data)
+	base := types.V2Transaction{MinerFee: types.NewCurrency64(uint64(1 + x.rng.Intn(1000)))}
+	type pair struct {
+		name string
+		a, b types.V2Transaction
+	}
+	var ps []pair
+	{
+		a, b := base, base
+		a.ArbitraryData = append([]byte{}, data...)
+		a.NewFoundationAddress = &A
+		b.ArbitraryData = append(append(append([]byte{}, data...), 1), A[:31]...)
+		ps = append(ps, pair{"arbitrary-data|foundation-address", a, b})
+	}
+	att := func(key string, val []byte) types.Attestation {
+		return types.Attestation{PublicKey: types.PublicKey{7}, Key: key, Value: val}
+	}
+	{
+		a, b := base, base
+		a.Attestations = []types.Attestation{att("host", []byte("announce:1234"))}
+		b.Attestations = []types.Attestation{att("hosta", []byte("nnounce:1234"))}
+		ps = append(ps, pair{"attestation-key|value", a, b})
+	}
+	{
+		a, b := base, base
+		a.Attestations = []types.Attestation{att("k", []byte("value-and"))}
+		a.ArbitraryData = []byte("-data")
+		b.Attestations = []types.Attestation{att("k", []byte("value"))}
+		b.ArbitraryData = []byte("-and-data")
+		ps = append(ps, pair{"attestation-value|arbitrary-data", a, b})
+	}
+	{
+		a, b := base, base
+		a.Attestations = []types.Attestation{att("k1", []byte("v1")), att("k2", []byte("v2"))}
+		b.Attestations = []types.Attestation{att("k1", []byte("v1k2v2"))}
+		ps = append(ps, pair{"two-attestations|one", a, b})
+	}
+	for _, p := range ps {
+		res.Eval("framing "+p.name, true)
+		res.Count("framing-pair:" + p.name)
+		x.compareV2(cs, p.a)
+		x.compareV2(cs, p.b)
+		if p.a.FullHash() == p.b.FullHash() {
+			continue // not different after all
+		}
+		if p.a.ID() == p.b.ID() || cs.InputSigHash(p.a) == cs.InputSigHash(p.b) {
+			res.Violate(fw.Violation{Key: "c12-v2-id-collision:framing:" + p.name,
+				What:     "two different v2 transactions (bytes moved across the boundary " + p.name + ") have the same transaction id / input sighash: the id encoding does not frame its variable-length parts",
+				Replay:   map[string]any{"a": fw.Hex(chain.Encode(p.a)), "b": fw.Hex(chain.Encode(p.b)), "id_a": c12H(p.a.ID()), "id_b": c12H(p.b.ID())},
+				Expected: "different ids", Observed: "equal"})
+		}
+	}
+}
+
 // collisionOnChain looks for the both-valid pair on the current tip.
 func (x *c12Ctx) collisionOnChain(s *chain.Sim, ts time.Time, rp map[string]any) {
 	if x.collisionReplay == nil || x.collisionReplay["both_valid"] != nil {
@@ -1078,6 +1144,7 @@ func runC12(c *fw.Ctx) {
 		return
 	}
 	x.collision()
+	x.framingPairs()
 	nChains := c.Budget(10, 100)
 	blocks := c.Budget(36, 60)
 	sweepEvery := c.Budget(3, 1)
